@@ -221,6 +221,8 @@ def build():
     add("subsample", "random", lambda: dict(c=list(COUNTS)), lambda a: prs.subsample(a["c"], 6))
     for m in ("simple", "continuitycorrection", "exact"):
         add(f"powerlaw_mle_alpha/{m}", "pure", lambda: dict(c=np.array([1, 1, 2, 3, 5, 8, 13, 1, 1, 2])), lambda a, m=m: prs.powerlaw_mle_alpha(a["c"], cmin=1, method=m))
+    add("powerlaw_mle_alpha/exact_bounds", "pure", lambda: dict(c=np.array([1, 1, 2, 3, 5, 8, 13, 1, 1, 2]), b=[2.0, 2.5]),
+        lambda a: prs.powerlaw_mle_alpha(a["c"], cmin=1, method="exact", bounds=a["b"]))
     add("pc", "pure", S, lambda a: prs.pc(a["seqs"]))
     add("pc/two", "pure", lambda: dict(a=list(SEQS), b=list(SEQS2)), lambda a: prs.pc(a["a"], a["b"]))
     add("pc/table", "pure", lambda: dict(df=_dfg()), lambda a: prs.pc(a["df"]))
@@ -256,6 +258,10 @@ def build():
         lambda a: prs.standardize_dataframe(a["df"], suppress_warnings=True))
     add("standardize_dataframe/mapper", "pure", lambda: dict(df=pd.DataFrame(dict(v=["TRBV7-9*01"], c=["CASSF"])), m=dict(v="TRBV", c="CDR3B")),
         lambda a: prs.standardize_dataframe(a["df"], col_mapper=a["m"], standardize=False))
+    add("standardize_dataframe/nonfunctional", "pure", lambda: dict(df=pd.DataFrame(dict(TRBV=["TRBV1*01", "TRBV7-9*01"], TRAJ=["TRAJ51*01", None]))),
+        lambda a: prs.standardize_dataframe(a["df"], tcr_enforce_functional=False, suppress_warnings=True))
+    add("standardize_dataframe/functional_default", "pure", lambda: dict(df=pd.DataFrame(dict(TRBV=["TRBV1*01", "TRBV7-9*01"], TRAJ=["TRAJ51*01", None]))),
+        lambda a: prs.standardize_dataframe(a["df"], suppress_warnings=True))
     add("isvalidaa", "pure", lambda: dict(x="CASSF"), lambda a: [prs.isvalidaa(a["x"]), prs.isvalidaa(None), prs.isvalidaa("CAS1")])
     add("isvalidcdr3", "pure", lambda: dict(x="CASSF"), lambda a: [prs.isvalidcdr3(a["x"]), prs.isvalidcdr3(np.nan), prs.isvalidcdr3("ASSF")])
     add("multimerge", "pure", lambda: dict(dfs=[pd.DataFrame(dict(k=["a", "b"], x=[1, 2])), pd.DataFrame(dict(k=["b", "c"], y=[3, 4]))]), lambda a: prs.multimerge(a["dfs"], "k"))
